@@ -31,6 +31,7 @@ type scenario struct {
 	FinishAt   int      `json:"finishAt"`
 	FinishEnd  bool     `json:"finishAtEnd"` // a HandleRequestFinish filter returns BfeHandlerFinish
 	Conc       int      `json:"conc"`
+	Front      string   `json:"front"` // "" / "h1": HTTP/1.1 client; "spdy": SPDY/3.1 client over TLS
 	Flap       bool     `json:"flap"` // health flap: the only backend serves its first connection slowly, fails the others, health check brings it back
 }
 
@@ -106,7 +107,8 @@ func main() {
 		events = append(events, map[string]interface{}{"ev": ev[:3], "cid": curCase, "b": b.Name, "sub": sub, "kind": kind, "n": arg - base[b]})
 		mu.Unlock()
 	}
-	s, err := e2e.Start(e2e.Options{Clusters: []e2e.Cluster{{Name: "c", Backends: []string{pool["ok"][0]}}}})
+	s, err := e2e.Start(e2e.Options{Clusters: []e2e.Cluster{{Name: "c", Backends: []string{pool["ok"][0]}}},
+		TLS: true, NextProtos: []string{"spdy/3.1", "http/1.1"}})
 	if err != nil {
 		vh.Emit(map[string]interface{}{"_fatal": "e2e.Start: " + err.Error()})
 		vh.Flush()
@@ -245,6 +247,24 @@ func runScenario(s *e2e.Server, pool map[string][]string, c scenario) error {
 				if !c.Get {
 					body = "Content-Length: 0\r\n\r\n"
 				}
+			}
+			if c.Front == "spdy" {
+				sc, err := e2e.DialSPDY(s.TLSAddr)
+				if err != nil {
+					return
+				}
+				defer sc.Close()
+				var b []byte
+				if !c.Nobody {
+					b = []byte("hello")
+				}
+				st, _, err := sc.Do(method, "/x", "example.org", map[string]string{"x-case-req": id}, b, 20*time.Second)
+				mu.Lock()
+				if err == nil {
+					reqs[id].status = st
+				}
+				mu.Unlock()
+				return
 			}
 			cli, err := e2e.DialH1(s.Addr)
 			if err != nil {
